@@ -112,12 +112,18 @@ func c09LoopDiff(a, b *s2.Loop, withBound bool) string {
 	return ""
 }
 
+// c09BoundStored: does the bound of a loop travel in the encoding (lossless: always;
+// compressed: loops of at least 64 vertices).
+func c09BoundStored(l *s2.Loop, lossless bool) bool { return lossless || l.NumVertices() >= 64 }
+
+// c09PolygonDiff compares the stored state; the bound and the subregion bound derived from it
+// are compared for every loop whose bound travels in the encoding (withBound = lossless format).
 func c09PolygonDiff(a, b *s2.Polygon, withBound bool) string {
 	if a.NumLoops() != b.NumLoops() {
 		return fmt.Sprintf("loop count %d vs %d", a.NumLoops(), b.NumLoops())
 	}
 	for i := 0; i < a.NumLoops(); i++ {
-		if d := c09LoopDiff(a.Loop(i), b.Loop(i), withBound); d != "" {
+		if d := c09LoopDiff(a.Loop(i), b.Loop(i), c09BoundStored(a.Loop(i), withBound)); d != "" {
 			return fmt.Sprintf("loop %d: %s", i, d)
 		}
 	}
@@ -211,7 +217,7 @@ func opWire(raw json.RawMessage, o *Out) {
 			name string
 			b    []byte
 			bnd  bool
-		}{{"lossless", wantL, true}, {"compressed", wantC, false}, {"own", got, false}} {
+		}{{"lossless", wantL, true}, {"compressed", wantC, false}, {"own", got, len(got) > 0 && got[0] == 1}} {
 			if !faithful && in.name != "own" {
 				in.b = map[string][]byte{"lossless": bl.Bytes(), "compressed": bc.Bytes()}[in.name]
 			}
@@ -432,7 +438,11 @@ type c09Event struct {
 	Keys0   [][3]int `json:"keys0"` // float keys of the bound (or of all floats of small values) before / after
 	Keys1   [][3]int `json:"keys1"`
 	BndEnc  bool     `json:"bndenc"` // the bound travels in the encoding (so it must come back bit for bit)
-	AltFp   []string `json:"altfp"`  // fingerprints / answers after a round trip through each forced polygon format
+	Bfp0    string   `json:"bfp0"`   // bounds + subregion bounds of the loops whose bound travels in the encoding, before / after
+	Bfp1    string   `json:"bfp1"`
+	AltB0   []string `json:"altb0"` // the same for each forced polygon format
+	AltB1   []string `json:"altb1"`
+	AltFp   []string `json:"altfp"` // fingerprints / answers after a round trip through each forced polygon format
 	AltAns  []string `json:"altans"`
 	AltName []string `json:"altname"`
 }
@@ -525,6 +535,40 @@ func c09LoopAnswers(d *c09Dump, l *s2.Loop) {
 	d.f(l.Area())
 }
 
+// c09Others builds a few fixed loops around loop l: a copy of l, a small loop around its centroid
+// (nested inside for the ring-shaped values), a loop centred on a vertex (overlapping), a loop at the
+// antipode of a vertex (disjoint), and the leaf cell at the centroid.
+func c09Others(l *s2.Loop) []*s2.Loop {
+	n := l.NumVertices()
+	if n < 3 {
+		return nil
+	}
+	var out []*s2.Loop
+	out = append(out, s2.LoopFromPoints(append([]s2.Point(nil), l.Vertices()...)))
+	edge := l.Vertex(0).Distance(l.Vertex(1))
+	if edge <= 0 || edge != edge {
+		return out
+	}
+	c := l.Centroid()
+	if c.Norm2() > 0 {
+		ctr := s2.Point{Vector: c.Normalize()}
+		out = append(out, s2.RegularLoop(ctr, edge/20, 4), s2.LoopFromCell(s2.CellFromPoint(ctr)))
+	}
+	out = append(out, s2.RegularLoop(l.Vertex(0), edge*0.7, 5))
+	out = append(out, s2.RegularLoop(s2.Point{Vector: l.Vertex(0).Mul(-1)}, 0.1, 4))
+	return out
+}
+
+// c09LoopRelations: relation queries of a loop against the fixed other loops.
+func c09LoopRelations(d *c09Dump, l *s2.Loop, others []*s2.Loop) {
+	for _, o := range others {
+		d.b(l.Contains(o))
+		d.b(l.Intersects(o))
+		d.b(o.Contains(l))
+		d.b(o.Intersects(l))
+	}
+}
+
 func c09PolygonFp(d *c09Dump, p *s2.Polygon) {
 	st := s2.VerifPolygonState(p)
 	d.u64(uint64(st.NumLoops))
@@ -570,6 +614,45 @@ func c09PolygonAnswers(d *c09Dump, p *s2.Polygon) {
 		}
 	}
 	d.f(p.Area())
+	// relation queries: loops against fixed other loops, the polygon against fixed other polygons
+	for i := 0; i < p.NumLoops() && i < 4; i++ {
+		l := p.Loop(i)
+		others := c09Others(l)
+		c09LoopRelations(d, l, others)
+		for _, o := range others {
+			q := s2.PolygonFromLoops([]*s2.Loop{o})
+			d.b(p.Contains(q))
+			d.b(p.Intersects(q))
+			d.b(q.Contains(p))
+		}
+	}
+}
+
+// c09BoundFp: bounds and subregion bounds that travel in the encoding of format lossless / compressed.
+func c09BoundFp(p *s2.Polygon, lossless bool) string {
+	var d c09Dump
+	for i := 0; i < p.NumLoops(); i++ {
+		l := p.Loop(i)
+		if c09BoundStored(l, lossless) {
+			st := s2.VerifLoopState(l)
+			for _, r := range []s2.Rect{st.Bound, st.SubregionBound} {
+				d.f(r.Lat.Lo)
+				d.f(r.Lat.Hi)
+				d.f(r.Lng.Lo)
+				d.f(r.Lng.Hi)
+			}
+		}
+	}
+	if lossless {
+		st := s2.VerifPolygonState(p)
+		for _, r := range []s2.Rect{st.Bound, st.SubregionBound} {
+			d.f(r.Lat.Lo)
+			d.f(r.Lat.Hi)
+			d.f(r.Lng.Lo)
+			d.f(r.Lng.Hi)
+		}
+	}
+	return c09Hash(d.Bytes())
 }
 
 // ---- generators --------------------------------------------------------------
@@ -960,7 +1043,13 @@ func opRoundTrip(raw json.RawMessage, o *Out) {
 		} else if fmt.Sprint(ev.Keys0) != fmt.Sprint(ev.Keys1) {
 			o.Count("recomputed_bound_differs_from_original")
 		}
+		if ev.Bfp0 != ev.Bfp1 {
+			o.Fail(k+"stored-bound", "%s: a loop bound that travels in the encoding (or the subregion bound derived from it) differs after the round trip", in)
+		}
 		for i := range ev.AltFp {
+			if ev.AltB0[i] != ev.AltB1[i] {
+				o.Fail("roundtrip/"+v.typ+"/"+ev.AltName[i]+"/"+c.Kind+"/stored-bound", "%s: round trip through the forced %s format changes a stored loop bound / subregion bound", in, ev.AltName[i])
+			}
 			if ev.AltFp[i] != ev.Fp0 {
 				o.Fail("roundtrip/"+v.typ+"/"+ev.AltName[i]+"/"+c.Kind+"/value", "%s: round trip through the forced %s format changes the value", in, ev.AltName[i])
 			}
@@ -1007,7 +1096,7 @@ func c09Explain(v c09Value) string {
 		if err := q.Decode(bytes.NewReader(buf.Bytes())); err != nil {
 			return err.Error()
 		}
-		return c09PolygonDiff(x, &q, false) + " enc=" + c15Hex(buf.Bytes())
+		return c09PolygonDiff(x, &q, buf.Len() > 0 && buf.Bytes()[0] == 1) + " enc=" + c15Hex(buf.Bytes())
 	case *s2.Loop:
 		var buf bytes.Buffer
 		x.Encode(&buf)
@@ -1027,7 +1116,7 @@ type c09Codec struct {
 
 // c09Observe performs the round trip and records what was seen (no judgement here).
 func c09Observe(v c09Value) (ev c09Event) {
-	ev = c09Event{Ev: "RoundTrip", Type: v.typ, Kind: v.kind, Fmt: "-", AltFp: []string{}, AltAns: []string{}, AltName: []string{}, Keys0: [][3]int{}, Keys1: [][3]int{}}
+	ev = c09Event{Ev: "RoundTrip", Type: v.typ, Kind: v.kind, Fmt: "-", AltFp: []string{}, AltAns: []string{}, AltName: []string{}, AltB0: []string{}, AltB1: []string{}, Keys0: [][3]int{}, Keys1: [][3]int{}}
 	fail := func(format string, a ...any) c09Event {
 		ev.Err = fmt.Sprintf(format, a...)
 		return ev
@@ -1071,6 +1160,7 @@ func c09Observe(v c09Value) (ev c09Event) {
 			return fail("Decode: %v", err)
 		}
 		ev.Fp1, ev.Ans1, ev.Keys1 = obs(&q)
+		ev.Bfp0, ev.Bfp1 = c09BoundFp(x, ev.Fmt == "lossless"), c09BoundFp(&q, ev.Fmt == "lossless")
 		if err := q.Encode(&buf3); err != nil {
 			return fail("re-Encode: %v", err)
 		}
@@ -1110,6 +1200,8 @@ func c09Observe(v c09Value) (ev c09Event) {
 			ev.AltName = append(ev.AltName, name)
 			ev.AltFp = append(ev.AltFp, fp)
 			ev.AltAns = append(ev.AltAns, ans)
+			ev.AltB0 = append(ev.AltB0, c09BoundFp(x, name == "lossless-forced"))
+			ev.AltB1 = append(ev.AltB1, c09BoundFp(&r, name == "lossless-forced"))
 		}
 	case *s2.Loop:
 		obs := func(l *s2.Loop) (string, string, [][3]int) {
